@@ -2111,6 +2111,109 @@ def c09_cli(ctx, res, limit):
     res.require(["l2:debug_vs_run", "l2:debug_vs_run_with_program_input", "l2:program_prints_control_bytes", "l2:script_and_program_input_share_stdin", "l2:program_input_read_under_the_debugger"], "L2")
 
 
+# ------------------------------------------------------------------ C20 (L2: the line editor on a real terminal)
+
+_KEYS = {"<Enter>": b"\r", "<BS>": b"\x7f", "<Del>": b"\x1b[3~", "<Left>": b"\x1b[D", "<Right>": b"\x1b[C", "<Up>": b"\x1b[A", "<Down>": b"\x1b[B"}
+
+
+def _pty_session(ctx, d, cache, keys, streams):
+    """Start `lace debug p.asm` on a pseudo-terminal, type `keys`, return (exit status or None, what the
+    terminal showed). `streams` says where stdout and stderr go: the terminal or a file."""
+    import pty
+    import select
+    master, slave = pty.openpty()
+    env = dict(common.ENV, XDG_CACHE_HOME=cache, TERM="xterm")
+    outf = open(os.path.join(d, "stdout.log"), "wb") if streams in ("stdout_to_file", "both_to_file") else None
+    errf = open(os.path.join(d, "stderr.log"), "wb") if streams in ("stderr_to_file", "both_to_file") else None
+    p = subprocess.Popen([common.cli_bin(ctx), "debug", "p.asm"], cwd=d, env=env, stdin=slave, stdout=outf or slave, stderr=errf or slave,
+                         start_new_session=True)
+    os.close(slave)
+    shown = bytearray()
+
+    def drain(wait):
+        end = time.time() + wait
+        while True:
+            left = end - time.time()
+            if left <= 0:
+                return
+            r, _, _ = select.select([master], [], [], left)
+            if not r:
+                return
+            try:
+                data = os.read(master, 65536)
+            except OSError:
+                return
+            if not data:
+                return
+            shown.extend(data)
+    drain(1.5)
+    for k in keys:
+        seq = _KEYS.get(k)
+        for chunk in ([seq] if seq is not None else [c.encode("utf-8") for c in k]):
+            try:
+                os.write(master, chunk)
+            except OSError:
+                break
+            drain(0.08)
+    deadline = time.time() + 60
+    while p.poll() is None and time.time() < deadline:
+        drain(0.3)
+    rc = p.poll()
+    if rc is None:
+        p.kill()
+        p.wait()
+    os.close(master)
+    for f in (outf, errf):
+        if f:
+            f.close()
+    return rc, bytes(shown)
+
+
+def c20_pty(ctx, res):
+    """The line editor on a real (pseudo-)terminal, with standard output and standard error on the terminal
+    or redirected to files: the lines it submits - read back from the history file it keeps in a
+    private cache directory - are the lines a plain editor holds after the same keys. (The in-process
+    layers feed keys to the editor directly; whether the editor is the reader at all is decided by
+    how lace was started.)"""
+    base = _dir(ctx, "c20")
+    sessions = [
+        (["ontinue", "<Left>"] + ["<Left>"] * 6 + ["c", "<Enter>", "exit", "<Enter>"], ["continue", "exit"]),
+        (["registerss", "<BS>", "<Enter>", "prnt r0", "<Left>", "<Left>", "<Left>", "<Left>", "<Left>", "i", "<Enter>", "exit", "<Enter>"], ["registers", "print r0", "exit"]),
+        (["sttep", "<Left>", "<Left>", "<Left>", "<Del>", "<Enter>", "echo a\u00e9", "<Left>", "<Left>", "x", "<Enter>", "quit", "<Enter>"], ["step", "echo xa\u00e9", "quit"]),
+        (["registers", "<Enter>", "print r1", "<Enter>", "<Up>", "<Up>", "<Enter>", "<Up>", "<Down>", "exit", "<Enter>"], ["registers", "print r1", "registers", "exit"]),
+        (["echo \U0001F642\u20ac", "<BS>", "<Left>", "<Right>", "!", "<Enter>", "exit", "<Enter>"], ["echo \U0001F642!", "exit"]),
+    ]
+    jobs = []
+    for streams in ("all_on_terminal", "stderr_to_file", "stdout_to_file", "both_to_file"):
+        for keys, want in sessions:
+            jobs.append((len(jobs), streams, keys, want))
+
+    def one(job):
+        n, streams, keys, want = job
+        d = os.path.join(base, "s%d" % n)
+        cache = os.path.join(d, "cache")
+        os.makedirs(cache, exist_ok=True)
+        _write(os.path.join(d, "p.asm"), "add r0 r0 #1\nadd r0 r0 #1\nhalt\n")
+        rc, shown = _pty_session(ctx, d, cache, keys, streams)
+        return job, cache, rc, shown
+    for (n, streams, keys, want), cache, rc, shown in pmap(one, jobs, workers=6):
+        if True:
+            res.evaluations += 1
+            res.cls("l2:editor_on_a_terminal:" + streams)
+            hist = os.path.join(cache, "lace-debugger-history")
+            got = open(hist, encoding="utf-8", errors="replace").read().splitlines() if os.path.exists(hist) else None
+            detail = {"keys": keys, "streams": streams, "exit": rc, "history_file": got, "expected_submitted_lines": want,
+                      "terminal_tail": shown[-300:].decode("utf-8", "replace")}
+            if rc is None:
+                k = "session on a pseudo-terminal did not end within 60 s (undecided)"
+                res.inconclusive[k] = res.inconclusive.get(k, 0) + 1
+            elif rc == 101 or rc < 0:
+                res.violate("C20/pty/crash", "`lace debug` on a terminal crashed (exit %s)" % rc, detail)
+            elif got != want:
+                res.violate("C20/pty/submitted-lines", "with %s the editor submitted %r; a plain editor holds %r after the same keys" % (streams, got, want), detail)
+    res.require(["l2:editor_on_a_terminal:all_on_terminal", "l2:editor_on_a_terminal:stderr_to_file", "l2:editor_on_a_terminal:both_to_file"], "L2")
+
+
 # ------------------------------------------------------------------ C05 (L2 sample)
 
 def c05_cli(ctx, res, limit):
